@@ -99,6 +99,9 @@ def run(prop: str, tier: str, seed: int) -> int:
                 for b in range(a):
                     M[a][b] = M[b][a]
             M[i][j] = M[j][i] + 1
+        for i in range(n):      # the domain of the constructor: every city has a neighbour at positive distance
+            if max(M[i]) == 0:  # (the symmetrisation above may have emptied a row)
+                M[i][(i + 1) % n] = M[(i + 1) % n][i] = 1
         hi = max(max(r) for r in M)
         cand = [np.int64, np.uint64] + ([np.int32] if hi < 2 ** 31 else []) + ([np.int16] if hi < 2 ** 15 else []) \
             + ([np.uint8] if hi < 2 ** 8 else [])
